@@ -115,3 +115,25 @@ Theorem C04_epoch_refuted :
     model_instant month_table tz_table (r_dtfs r) c None off = Some (1843263187 * 1000000000)%Z.
 Proof. exact epoch_refuted_lemma. Qed.
 Print Assumptions C04_epoch_refuted.
+
+(* ================================================================== zones in the normalised buffer *)
+(* no zone in the notation => the fallback zone (the text of --tz-offset is appended) *)
+Theorem C04_no_zone_fallback : forall d c tzs,
+  f_tz d = Tz_fill -> seg_tz tz_table d c tzs = Some tzs.
+Proof. exact no_zone_fallback_lemma. Qed.
+Print Assumptions C04_no_zone_fallback.
+
+(* an abbreviation the frozen reference calls ambiguous => the fallback zone *)
+Theorem C04_ambiguous_zone_fallback : forall d c t tzs,
+  f_tz d = Tz_Z -> c_tz c = Some t -> zone_of_name t = Some None ->
+  seg_tz tz_table d c tzs = Some tzs.
+Proof. exact ambiguous_zone_fallback_lemma. Qed.
+Print Assumptions C04_ambiguous_zone_fallback.
+
+(* an unambiguous abbreviation (either case) => a text that chrono's offset scanner reads completely as
+   exactly the reference offset *)
+Theorem C04_named_zone_offset : forall d c t o tzs,
+  f_tz d = Tz_Z -> c_tz c = Some t -> zone_of_name t = Some (Some o) ->
+  exists s, seg_tz tz_table d c tzs = Some s /\ scan_offset false s = Some (o, []).
+Proof. exact named_zone_offset_lemma. Qed.
+Print Assumptions C04_named_zone_offset.
